@@ -302,3 +302,12 @@ def group_rejects(rej, cache=None):
         g["file"] = f
         del g["where"]
     return sigs
+
+
+_linecache = {}
+
+
+def _line(f, ln):
+    if f not in _linecache:
+        _linecache[f] = open(f).read().splitlines()
+    return _linecache[f][ln - 1]
